@@ -1,6 +1,8 @@
 package main
 
 import (
+	"encoding/json"
+	"os"
 	"fmt"
 	"sort"
 	"strings"
@@ -64,12 +66,36 @@ func c05Pair(c *Ctx, a, b algoCase, what string, r *RNG, dropStart, dropPos bool
 func runC05(c *Ctx) {
 	c.Rep.Rule = "pairs of calls that differ only in slab state/history, text representation (bytes vs runes) or withPos, and process-level (list, sub-list) pairs for every tiebreak; a pair is non-trivial when the pattern is non-empty and matches; distinct by JSON of the pair"
 	fns := []int{1, 2, 3, 4, 5, 6, 7}
+	loadNth := func(path string) *c05NthCase {
+		b, err := os.ReadFile(path)
+		if err != nil {
+			return nil
+		}
+		var w struct{ Input c05NthCase }
+		if json.Unmarshal(b, &w) == nil && w.Input.Kind == "nthseq" {
+			return &w.Input
+		}
+		var cs c05NthCase
+		if json.Unmarshal(b, &cs) == nil && cs.Kind == "nthseq" {
+			return &cs
+		}
+		return nil
+	}
 	if c.Replay != "" {
+		if n := loadNth(c.Replay); n != nil {
+			c05NthRun(c, n)
+			return
+		}
 		cs := loadAlgoCases(c.Replay)
 		if len(cs) == 2 {
 			c05Pair(c, cs[0], cs[1], "replay", NewRNG(1), false, false)
 		}
 		return
+	}
+	for _, f := range corpusFiles(c) {
+		if n := loadNth(f); n != nil {
+			c05NthRun(c, n)
+		}
 	}
 	corpus := [][]algoCase{}
 	for _, f := range corpusFiles(c) {
@@ -145,6 +171,7 @@ func runC05(c *Ctx) {
 		})
 	}
 	c05Process(c)
+	c05NthStream(c)
 }
 
 // c05V1V2Case: a call on a slab one cell too small for N*M (FuzzyMatchV2 hands over to the greedy V1) on a text where
